@@ -13,16 +13,26 @@ sys.path.insert(0, os.path.join(VERIF, "engines"))
 import extract  # noqa: E402
 
 ISAS = ["sse2", "sse41", "avx2", "avx512"]
-FLAVOURS = {"unix": [], "windows_gnu": ["--target=x86_64-pc-windows-gnu"]}
+FLAVOURS = {"unix": [], "windows_gnu": ["--target=x86_64-pc-windows-gnu"], "windows_msvc": ["--target=x86_64-pc-windows-gnu"]}
 
 
 def obj_for(isa, flavour):
-    src = os.path.join(REPO, "c", "blake3_%s_x86-64_%s.S" % (isa, flavour))
+    src = os.path.join(REPO, "c", "blake3_%s_x86-64_%s.%s" % (isa, flavour, "asm" if flavour == "windows_msvc" else "S"))
     if not os.path.exists(src):
         raise FileNotFoundError(src)
     d = os.path.join(extract.cache_dir(), "asm")
     os.makedirs(d, exist_ok=True)
     o = os.path.join(d, "%s_%s.o" % (isa, flavour))
+    if not os.path.exists(o) and flavour == "windows_msvc":
+        # MASM source: rewritten directive-by-directive into GNU intel syntax (masm2gas.py), then assembled like the others
+        import masm2gas
+        gas = os.path.join(d, "%s_%s.S" % (isa, flavour))
+        with open(gas, "w") as fh:
+            fh.write(masm2gas.translate(open(src).read()))
+        r = subprocess.run(["clang", "-c"] + FLAVOURS[flavour] + [gas, "-o", o + ".tmp"], capture_output=True, text=True)
+        if r.returncode:
+            raise SystemExit("EXTRACTION-FAILED assembling the translation of %s: %s" % (src, r.stderr[-800:]))
+        os.rename(o + ".tmp", o)
     if not os.path.exists(o):
         r = subprocess.run(["clang", "-c"] + FLAVOURS[flavour] + [src, "-o", o + ".tmp"], capture_output=True, text=True)
         if r.returncode:
@@ -219,6 +229,8 @@ KNOWN_MNEMONICS = None
 # ---------------------------------------------------------------- ABI dataflow ----
 CALLEE_GPR = {"unix": ["rbx", "rbp", "r12", "r13", "r14", "r15"], "windows_gnu": ["rbx", "rbp", "rsi", "rdi", "r12", "r13", "r14", "r15"]}
 CALLEE_XMM = {"unix": [], "windows_gnu": ["xmm%d" % i for i in range(6, 16)]}
+CALLEE_GPR["windows_msvc"] = CALLEE_GPR["windows_gnu"]      # the same Win64 convention
+CALLEE_XMM["windows_msvc"] = CALLEE_XMM["windows_gnu"]
 ALIGN_AGNOSTIC = {"mov", "movzx", "movd", "movq", "movdqu", "movups", "prefetcht0", "prefetcht1", "prefetcht2", "prefetchnta", "lea", "cmp", "add", "movsx"}
 
 
